@@ -11,7 +11,8 @@
                                                            -> header_record, header_parse, header_new, ...
      EltoritoBootCatalog.record/.new/.add_section/.parse   -> cat_record, cat_new, cat_add_section,
                                                               cat_parse_step
-     PyCdlib._check_and_parse_eltorito (read(32) loop)     -> parse_loop / parse_catalog
+     PyCdlib._check_and_parse_eltorito (read(32) loop)     -> read32, parse_units, parse_catalog_extent
+                                                              (parse_catalog: the same loop fed from a string)
      EltoritoBootInfoTable.record/.parse/.new              -> bit_record, bit_parse, mk_bit
      PyCdlib._calculate_eltorito_boot_info_table_csum      -> bit_csum
      PyCdlib.add_eltorito (sector_count when boot_load_size is None) -> default_sector_count
@@ -114,7 +115,12 @@ Definition media_of_Z (m : Z) : media_name :=
 (* new(sector_count, load_seg, media_name, system_type, bootable) *)
 Definition entry_new (sector_count load_seg : Z) (media : media_name) (system_type : Z)
                      (bootable : bool) : option et_entry :=
+  (* after the media_name chain:  if not 0 <= sector_count <= 0xffff: raise ; if not 0 <= load_seg
+     <= 0xffff: raise ; if not 0 <= system_type <= 0xff: raise *)
   let mk media_type sector_count :=
+    if negb (u16_ok sector_count) then None else
+    if negb (u16_ok load_seg) then None else
+    if negb (u8_ok system_type) then None else
     Some (mk_entry (if bootable then 136 else 0) media_type load_seg system_type sector_count 0 0
                    (repeat 0 19)) in
   match media with
@@ -275,9 +281,17 @@ Fixpoint sections_sane (secs : list et_header) : bool :=
       (match r with [] => true | _ => h_indicator s =? 144 end) && sections_sane r
   end.
 
+(* self.sections and len(self.sections[-1].section_entries) < self.sections[-1].num_section_entries *)
+Definition last_pending (secs : list et_header) : bool :=
+  match split_last secs with
+  | Some (_, l) => zlen (h_entries l) <? h_num_entries l
+  | None => false
+  end.
+
 (* EltoritoBootCatalog.parse(valstr) -> (new object state, returned bool); the order of the tests
-   on valstr[0] is the order of the if/elif chain: 0x00 is the terminator, so the b'\x00' of the
-   later `val in (b'\x88', b'\x00')` is never reached *)
+   on valstr[0] is the order of the if/elif chain: 0x00 while the last section still expects
+   entries is a (non-bootable) section entry, any other 0x00 is the terminator, so the b'\x00' of
+   the later `val in (b'\x88', b'\x00')` is never reached *)
 Definition cat_parse_step (st : pstate) (valstr : list Z) : option (pstate * bool) :=
   match st with
   | PExpectVal =>
@@ -288,7 +302,20 @@ Definition cat_parse_step (st : pstate) (valstr : list Z) : option (pstate * boo
       match valstr with
       | [] => None
       | val :: _ =>
-          if val =? 0 then
+          if (val =? 0) && last_pending secs then
+            match entry_parse valstr with
+            | None => None
+            | Some e =>
+                match split_last secs with
+                | Some (pre, l) =>
+                    match header_add_parsed_entry l e with
+                    | Some l' => Some (PSections v i (pre ++ [l']) sa, false)
+                    | None => None
+                    end
+                | None => None
+                end
+            end
+          else if val =? 0 then
             if sections_sane secs then Some (st, true) else None
           else if (val =? 144) || (val =? 145) then
             match header_parse valstr with
@@ -327,27 +354,48 @@ Definition cat_parse_step (st : pstate) (valstr : list Z) : option (pstate * boo
       end
   end.
 
-(* PyCdlib._check_and_parse_eltorito:
-     data = fp.read(32); while not catalog.parse(data): data = fp.read(32)
-   [data] is everything that can be read from the catalog's extent on; a read at the end of the
-   file returns b'' and parse then raises.  Every iteration consumes input or fails, so the fuel
-   S (length data) is never exhausted. *)
-Fixpoint parse_loop (fuel : nat) (st : pstate) (data : list Z) : option et_catalog :=
-  match fuel with
-  | O => None
-  | S f =>
-      match cat_parse_step st (firstn 32 data) with
+(* The caller's loop `while not catalog.parse(data): data = <next 32-byte unit>` over the units a
+   reader supplies.  A reader that stops supplying units models an exception of the reader. *)
+Fixpoint parse_units (units : list (list Z)) (st : pstate) : option et_catalog :=
+  match units with
+  | [] => None
+  | u :: r =>
+      match cat_parse_step st u with
       | None => None
       | Some (st', done) =>
           if done then match st' with
                        | PSections v i secs sa => Some (mk_cat v i secs sa)
                        | _ => None
                        end
-          else parse_loop f st' (skipn 32 data)
+          else parse_units r st'
       end
   end.
+
+(* n successive fp.read(32) on a stream holding [data] (short / empty reads at the end) *)
+Fixpoint read32 (n : nat) (data : list Z) : list (list Z) :=
+  match n with
+  | O => []
+  | S n' => firstn 32 data :: read32 n' (skipn 32 data)
+  end.
+
+(* feeding a byte string in 32-byte units until parse returns True (the reader of pycdlib before
+   commit 351102c; still the meaning of "parse this string").  A read at the end returns b'' and
+   parse then raises; every unit consumes input or fails, so S (length data) units are enough. *)
 Definition parse_catalog (data : list Z) : option et_catalog :=
-  parse_loop (S (length data)) PExpectVal data.
+  parse_units (read32 (S (length data)) data) PExpectVal.
+
+(* PyCdlib._check_and_parse_eltorito as it is now:
+     num_left = logical_block_size // 32 ; data = fp.read(32) ; num_left -= 1
+     while not catalog.parse(data):
+         if num_left > 0: data = fp.read(32) ; num_left -= 1
+         else: data = b'\x00' * 32
+   i.e. at most 64 units are read from the image ([data] = the image from the catalog's extent on),
+   then synthetic zero units.  A zero unit ends the parse, or raises, or is taken as one of the at
+   most 65535 entries the last header still expects (+2 for the validation / initial states), so
+   65538 zero units are never exhausted. *)
+Definition zero_units : nat := Z.to_nat 65538.
+Definition parse_catalog_extent (data : list Z) : option et_catalog :=
+  parse_units (read32 64 data ++ repeat (repeat 0 32) zero_units) PExpectVal.
 
 (* -- well-formedness -- *)
 Definition section_ok (h : et_header) : bool :=
@@ -365,12 +413,12 @@ Definition cat_inv (c : et_catalog) : bool :=
   indicators_ok (c_sections c) && (zlen (c_sections c) <=? 31) &&
   forallb (fun h => h_num_entries h =? 1) (c_sections c) &&
   (match c_standalone c with [] => true | _ => false end).
-(* what the record -> parse round trip needs: every entry after the initial one must be bootable
-   (first byte 0x88), because a first byte 0x00 is the terminator *)
+(* what the record -> parse round trip needs: section entries may be bootable or not; a standalone
+   entry (after the sections, which are all complete) must be bootable (first byte 0x88), because
+   there a first byte 0x00 is the terminator *)
 Definition cat_wf (c : et_catalog) : bool :=
   val_ok (c_validation c) && entry_ok (c_initial c) && forallb section_ok (c_sections c) &&
   sections_sane (c_sections c) &&
-  forallb (fun h => forallb entry_bootable (h_entries h)) (c_sections c) &&
   forallb entry_ok (c_standalone c) && forallb entry_bootable (c_standalone c).
 Definition all_bootable (c : et_catalog) : bool :=
   forallb (fun h => forallb entry_bootable (h_entries h)) (c_sections c).
@@ -420,20 +468,24 @@ Fixpoint bit_block_loop (fuel : nat) (block : list Z) (i csum : Z) : option Z :=
   end.
 
 (* outer loop; [fp] is what data_fp can still deliver from its current position:
-     block = data_fp.read(2048) ; block = block.ljust(2048, b'\x00') ; i = 64 in the first sector *)
-Fixpoint bit_sector_loop (n : nat) (first : bool) (fp : list Z) (csum : Z) : option Z :=
+     block = data_fp.read(min(2048, data_len - curr_sector * 2048))     (read(n), n < 0: everything)
+     block = block.ljust(2048, b'\x00') ; i = 64 if curr_sector == 0 *)
+Fixpoint bit_sector_loop (n : nat) (data_len curr_sector : Z) (fp : list Z) (csum : Z) : option Z :=
   match n with
   | O => Some csum
   | S n' =>
-      let block := firstn 2048 fp in
+      let want := Z.min 2048 (data_len - curr_sector * 2048) in
+      let got := if want <? 0 then length fp else Z.to_nat want in
+      let block := firstn got fp in
       let block := block ++ repeat 0 (2048 - length block) in
-      match bit_block_loop (S (length block)) block (if first then 64 else 0) csum with
+      match bit_block_loop (S (length block)) block (if curr_sector =? 0 then 64 else 0) csum with
       | None => None
-      | Some csum' => bit_sector_loop n' false (skipn 2048 fp) csum'
+      | Some csum' => bit_sector_loop n' data_len (curr_sector + 1) (skipn got fp) csum'
       end
   end.
+(* num_sectors = ceiling_div(data_len, 2048) ; csum = 0 ; curr_sector = 0 ; while curr_sector < num_sectors *)
 Definition bit_csum (fp : list Z) (data_len : Z) : option Z :=
-  bit_sector_loop (Z.to_nat (ceiling_div data_len 2048)) true fp 0.
+  bit_sector_loop (Z.to_nat (ceiling_div data_len 2048)) data_len 0 fp 0.
 
 (* specification vocabulary: little-endian 32-bit words, a short tail is completed with zeros *)
 Fixpoint words32 (l : list Z) : list Z :=
@@ -443,14 +495,6 @@ Fixpoint words32 (l : list Z) : list Z :=
   | _ => [dle32 l]
   end.
 Definition zsum32 (l : list Z) : Z := fold_right Z.add 0 (words32 l).
-(* the sectors the checksum loop reads, each completed to 2048 bytes *)
-Fixpoint padded_sectors (n : nat) (fp : list Z) : list Z :=
-  match n with
-  | O => []
-  | S n' => (firstn 2048 fp ++ repeat 0 (2048 - length (firstn 2048 fp)))
-            ++ padded_sectors n' (skipn 2048 fp)
-  end.
-
 (* ---- executable checkers for the external differential harness --------------------------- *)
 (* expected = [] stands for "the Python call raised".
 
@@ -468,8 +512,10 @@ Fixpoint padded_sectors (n : nat) (fp : list Z) : list Z :=
    check_entry_dec_case b expected:  e.parse(b); expected = e.record()
    check_header_case (header_indicator, platform_id, num_section_entries, id_string) entries expected:
        attributes of an EltoritoSectionHeader and of its section_entries, expected = h.record()
-   check_catalog_bytes cat_bytes: the read(32)/parse loop succeeds on cat_bytes and record() of the
-       parsed catalog is a prefix of cat_bytes followed only by zero bytes *)
+   check_catalog_bytes cat_bytes: cat_bytes = the 2048-byte block of the catalog followed by
+       arbitrary bytes (what follows in the image); the reader loop of _check_and_parse_eltorito
+       succeeds on it and record() of the parsed catalog is a prefix of the 2048-byte block, the
+       rest of the block being zero bytes *)
 Definition check_validation_case (platform_id : Z) (id_string : list Z) (expected : list Z) : bool :=
   opt_bytes_eqb (match val_new_ids platform_id id_string with
                  | Some v => val_record v
@@ -503,9 +549,9 @@ Fixpoint zeros_after (b data : list Z) : bool :=
   | _ :: _, [] => false
   end.
 Definition check_catalog_bytes (cat_bytes : list Z) : bool :=
-  match parse_catalog cat_bytes with
+  match parse_catalog_extent cat_bytes with
   | Some c => match cat_record c with
-              | Some b => zeros_after b cat_bytes
+              | Some b => zeros_after b (firstn 2048 cat_bytes)
               | None => false
               end
   | None => false
